@@ -30,9 +30,10 @@ import (
 // is executed and compared with a reference map after every step.
 
 type c18Headers struct {
-	fail  bool
-	slots map[phase0.Root]phase0.Slot
-	calls int
+	fail    bool
+	slots   map[phase0.Root]phase0.Slot
+	parents map[phase0.Root]phase0.Root // parent of each block (several slots older: slots were missed in between)
+	calls   int
 }
 
 func (h *c18Headers) BeaconBlockHeader(_ context.Context, opts *api.BeaconBlockHeaderOpts) (*api.Response[*apiv1.BeaconBlockHeader], error) {
@@ -42,7 +43,7 @@ func (h *c18Headers) BeaconBlockHeader(_ context.Context, opts *api.BeaconBlockH
 	}
 	for r, s := range h.slots {
 		if r.String() == opts.Block {
-			return &api.Response[*apiv1.BeaconBlockHeader]{Data: &apiv1.BeaconBlockHeader{Root: r, Header: &phase0.SignedBeaconBlockHeader{Message: &phase0.BeaconBlockHeader{Slot: s}}}, Metadata: map[string]any{}}, nil
+			return &api.Response[*apiv1.BeaconBlockHeader]{Data: &apiv1.BeaconBlockHeader{Root: r, Header: &phase0.SignedBeaconBlockHeader{Message: &phase0.BeaconBlockHeader{Slot: s, ParentRoot: h.parents[r]}}}, Metadata: map[string]any{}}, nil
 		}
 	}
 	return nil, errors.New("unknown block")
@@ -73,7 +74,11 @@ func c18Units(tier string) []hx.Unit {
 	// epoch 2 upwards as clean runs advance the clock by one epoch each.
 	genesisOff := -int64(66*slotsPerEpoch) * int64(slotDur)
 	roots := []phase0.Root{root(1), root(2), root(3)}
-	trueSlot := map[phase0.Root]phase0.Slot{roots[0]: 2*slotsPerEpoch + 3, roots[1]: 3*slotsPerEpoch + 14, roots[2]: 66 * slotsPerEpoch}
+	// the two old blocks sit exactly on the retention boundary of the first and of the second clean run
+	// (first slot of epoch 67-64 and of epoch 68-64); each block's parent is the previous root, several
+	// slots older
+	trueSlot := map[phase0.Root]phase0.Slot{roots[0]: 3 * slotsPerEpoch, roots[1]: 4 * slotsPerEpoch, roots[2]: 66 * slotsPerEpoch}
+	parents := map[phase0.Root]phase0.Root{roots[1]: roots[0], roots[2]: roots[1], roots[0]: root(9)}
 	nOps := 3*len(roots) + 1
 	var units []hx.Unit
 	for first := 0; first < nOps; first++ {
@@ -87,7 +92,7 @@ func c18Units(tier string) []hx.Unit {
 			sched, err := advanced.New(ctx, advanced.WithLogLevel(zerolog.Disabled), advanced.WithMonitor(&nullmetrics.Service{}))
 			must(err)
 			ct := newChainTime(genesisOff, slotDur, slotsPerEpoch)
-			hp := &c18Headers{slots: trueSlot}
+			hp := &c18Headers{slots: trueSlot, parents: parents}
 			ev := &eventsProvider{}
 			svc, err := standardcache.New(ctx,
 				standardcache.WithLogLevel(zerolog.Disabled),
@@ -193,7 +198,7 @@ func init() {
 	hx.Register(&hx.Prop{
 		ID:    "C18",
 		Title: "A block root always maps to that block's slot",
-		Rule: "all operation sequences up to the depth bound (quick 4, thorough 6) over {block event, lookup with working provider, lookup with failing provider} x 3 roots (slots below, just inside and far inside the retention window) and {clean run}, on the real cache service with the real scheduler and chain time on a virtual clock; compared with a reference map after every step; " +
+		Rule: "all operation sequences up to the depth bound (quick 4, thorough 6) over {block event, lookup with working provider, lookup with failing provider} x 3 roots, each the parent of the next with missed slots in between (slots exactly on the retention boundary of the first and of the second clean run, and far inside the window) and {clean run}, on the real cache service with the real scheduler and chain time on a virtual clock; compared with a reference map after every step; " +
 			"non-trivial = the sequence contains a lookup miss or a clean run; distinct = distinct (miss, clean, length) classes",
 		Assumptions:   []string{"single caller (overlap of lookups and events is C17)", "block events carry the block's true slot"},
 		Units:         c18Units,
